@@ -481,6 +481,16 @@ func (c04) Check(c *core.Case, env *core.Env, res zzsim.Result, v *core.Verdict)
 		}
 		v.OpsDone++
 		switch h.Kind {
+		case "echo", "slow", "cancel-echo", "cancel-noarg", "relay", "fire", "noarg":
+			// On a healthy connection a call loses its answer for two reasons
+			// only: its caller cancelled it, or the endpoint shed it because a
+			// queue was full and said so. Anything else means the call's own
+			// answer went astray.
+			if !h.OK && c.Batch != "faults" && !strings.Contains(h.Err, "ancel") && !strings.Contains(h.Err, "consumer blocked") {
+				bad("answer-lost-on-healthy-connection", "%s failed although nothing is wrong with the connection and nobody cancelled it: %s", h, h.Err)
+			}
+		}
+		switch h.Kind {
 		case "echo", "slow", "cancel-echo", "relay":
 			method := "echo"
 			if h.Kind == "slow" {
@@ -512,6 +522,7 @@ func (c04) Check(c *core.Case, env *core.Env, res zzsim.Result, v *core.Verdict)
 			if !h.OK && !strings.Contains(h.Err, "ancel") {
 				env.Probe("call-failed")
 			}
+
 			if !h.OK && strings.Contains(h.Err, "consumer blocked") {
 				env.Probe("call-shed-by-full-queue")
 			}
